@@ -8,7 +8,8 @@ theory, so this is NOT a solver decision over all strings. It is a conformance v
 code at SOLVER-CHOSEN witnesses: for every pattern of a bounded-exhaustive family and each of the four
 trim forms, z3 (sequence theory, over the POSIX reading R of the pattern) produces strings that have at
 least two different matching prefixes (suffixes) - the only strings on which "shortest" and "longest"
-differ -, plus members with exactly one matching cut and non-members; the expected result is computed
+differ -, strings in which the pattern matches twice in a row at the trimmed end, strings with a leading
+period, strings whose longer match starts with a multi-byte character, members and non-members; the expected result is computed
 from R alone (set of cut points k with s[..k] in R, min / max); the REAL expansion `${x#pat}` ... runs
 natively (yash-syntax parser, yash-semantics trim.rs, yash-fnmatch find / rfind) through
 harness/ext/trim_driver and must agree. A disagreement is reported with the (form, pattern, string)
@@ -31,13 +32,17 @@ FORMS = ["#", "##", "%", "%%"]
 
 def family(tier):
     """Token sequences of <= 3 (thorough: 4) pattern items over a small item alphabet."""
-    items = [N("a"), N("b"), N("?"), N("*"), N("[ab]"), N("[!a]"), L("*")]
+    items = [N("a"), N("b"), N("?"), N("*"), N("[ab]"), N("[!a]"), L("*"), N("\u00e9")]
     if tier == "thorough":
-        items += [N("[a-b]"), L("?"), N("c")]
+        items += [N("[a-b]"), L("?"), N("c"), N(".")]
     n = 4 if tier == "thorough" else 3
+    core = [N("a"), N("?"), N("*"), N("[ab]")]
     out = []
     for k in range(1, n + 1):
-        for combo in itertools.product(items, repeat=k):
+        # quick: the full item alphabet up to two items, three items over the four core items only;
+        # thorough: the full alphabet up to three items, four items over the core items
+        pool = core if ((tier == "quick" and k == 3) or k == 4) else items
+        for combo in itertools.product(pool, repeat=k):
             t = [x for it in combo for x in it]
             # skip adjacent stars (same language, nothing new)
             if any(combo[i] == N("*") and combo[i + 1] == N("*") for i in range(len(combo) - 1)):
@@ -73,7 +78,8 @@ def witnesses(e, items, prefix, n_multi, n_other):
     `R . Sigma*` (prefix) / `Sigma* . R` (suffix), (iii) others."""
     z3 = e.z3
     R = e.spec_body(items)
-    sigma = z3.Star(z3.Union(e.lit("a"), e.lit("b"), e.lit("c")))
+    # value alphabet: two pattern letters, a letter no pattern item names, a multi-byte character and the period
+    sigma = z3.Star(z3.Union(e.lit("a"), e.lit("b"), e.lit("c"), e.lit("\u00e9"), e.lit(".")))
     s = e.s
     p, m, r = z3.String("p"), z3.String("m"), z3.String("r")
     out = []
@@ -97,14 +103,25 @@ def witnesses(e, items, prefix, n_multi, n_other):
         e.solver.pop()
         return got
 
+    nonempty = z3.Intersect(R, z3.Concat(e.allchar, e.full))
     if prefix:
         two = [s == z3.Concat(p, m, r), z3.Length(m) > 0, z3.InRe(p, R), z3.InRe(z3.Concat(p, m), R)]
         one = [z3.InRe(s, z3.Concat(R, sigma))]
+        twice = [z3.InRe(s, z3.Concat(nonempty, nonempty, sigma))]          # the pattern matches twice in a row at the trimmed end
+        dot = [z3.InRe(s, z3.Concat(e.lit("."), sigma)), one[0]]            # a value with a leading period
+        mb = [s == z3.Concat(p, m, r), z3.InRe(p, R), z3.InRe(z3.Concat(p, m), R), z3.PrefixOf(z3.StringVal("\u00e9"), m)]
     else:
         two = [s == z3.Concat(r, m, p), z3.Length(m) > 0, z3.InRe(p, R), z3.InRe(z3.Concat(m, p), R)]
         one = [z3.InRe(s, z3.Concat(sigma, R))]
+        twice = [z3.InRe(s, z3.Concat(sigma, nonempty, nonempty))]
+        dot = [z3.InRe(s, z3.Concat(e.lit("."), sigma)), one[0]]
+        # two suffix cuts, the longer match starting with a multi-byte character
+        mb = [s == z3.Concat(r, m, p), z3.Length(m) > 0, z3.InRe(p, R), z3.InRe(z3.Concat(m, p), R), z3.PrefixOf(z3.StringVal("\u00e9"), m)]
     out += models(two, n_multi)
     out += models(one, n_other)
+    out += models(twice, 1)
+    out += models(dot, 1)
+    out += models(mb, 1)
     out += models([z3.Not(one[0])], 1)
     return list(dict.fromkeys(out))
 
